@@ -61,6 +61,9 @@ pub const F64_SPECIAL: &[u64] = &[
 pub const F32_SPECIAL: &[u32] = &[
     0x00000000, 0x80000000, 0x3f800000, 0xbf800000, 0x7f800000, 0xff800000, 0x7fc00000, 0xffc00000, 0x7fc00001, 0x00000001, 0x007fffff, 0x00800000,
     0x7f7fffff, 0xff7fffff, 0x3dcccccd, 0x3eaaaaab, 0x4b800000, 0x5f000000, 0x33d6bf95,
+    // the (only) f32 magnitude whose shortest decimal string, parsed as f64 and narrowed again, lands 1 ulp off
+    // (double rounding): a serializer that prints f32 through its decimal string loses it
+    0x15ae43fd, 0x95ae43fd,
 ];
 
 pub const DT_STRINGS: &[&str] = &[
